@@ -396,7 +396,8 @@ def scenario(rng, kind=None):
     parameters); every one ends with a complete teardown and the leak check"""
     r = rng
     kind = kind or r.choice(['pill_batch_dereg', 'paused_flush', 'oneshot_stop', 'replace_inflight', 'stash_slices', 'tb_reconf',
-                             'tick_eval', 'tb_batch', 'errno_batch', 'dup_refused', 'far_timers', 'refuse_self', 'stash_prio'])
+                             'tick_eval', 'tb_batch', 'errno_batch', 'dup_refused', 'far_timers', 'refuse_self', 'stash_prio',
+                             'oneshot_regex', 'sub_collide', 'low_restart', 'stash_pause_stop'])
     L = ['ctx_reg %d' % r.randrange(2)]
     af = lambda: r.randrange(2)
     if kind == 'pill_batch_dereg':
@@ -450,6 +451,35 @@ def scenario(rng, kind=None):
         L += ['reg h0 A - -', 'start h0', 'reg_fd h0 f0 %s u1' % fl, 'reg_tmr h0 1 %s u2' % r.choice(['-', 'l', 'h', 'o']),
               'sub h0 ta - %s u3' % r.choice(['0', '0', '1']), 'pub h0 ta p1 0', 'make_ready f0', 'dispatch', 'dispatch']
         L += ['stash h0 0', 'stash h0 1', 'ret 1', 'dispatch', 'stash h0 0', 'ret 1', 'dispatch', 'stash h0 0', 'ret 1', 'unstash h0 %d' % r.choice([1, 2, 9]), 'ret 1']
+    elif kind == 'oneshot_regex':
+        # a one-shot subscription by pattern: the first matching message consumes it, whatever its topic
+        L += ['reg h0 A - -', 'reg h1 B - -', 'start h0', 'start h1', 'sub h1 %s - 1 u1' % r.choice(PATTERNS + PATTERNS + ['ta']),
+              'sub h1 tc - %d u2' % r.randrange(2)]
+        L += ['pub h0 %s p%d %d' % (r.choice(['ta', 'tb', 'tc']), i + 1, af()) for i in range(r.randrange(2, 5))] + ['srclen h1']
+        L += ['dispatch'] * 5 + ['srclen h1', 'pub h0 ta p9 0', 'dispatch', 'dispatch', 'srclen h1']
+    elif kind == 'sub_collide':
+        # literal topics that share one home slot of the subscription table, removed and added back in several orders
+        ts = COLLIDING[:]; r.shuffle(ts)
+        L += ['reg h0 A - -', 'start h0'] + ['sub h0 %s - 0 u%d' % (t, i + 1) for i, t in enumerate(ts)] + ['srclen h0']
+        rm = ts[:]; r.shuffle(rm)
+        for t in rm[:r.randrange(1, 3)]:
+            L += ['unsub h0 %s' % t, 'srclen h0']
+        L += ['pub h0 %s p1 0' % COLLIDING[0]] + ['unsub h0 %s' % t for t in ts] + ['srclen h0', 'sub h0 %s - 0 u7' % r.choice(ts),
+              'pub h0 %s p2 0' % COLLIDING[0], 'dispatch', 'dispatch', 'dispatch', 'srclen h0']
+    elif kind == 'low_restart':
+        # low priority events wait for a normal one; the module is stopped (or paused) and started again meanwhile
+        L += ['reg h0 A - -', 'reg h1 B - -', 'start h0', 'start h1', 'sub h1 ta l 0 u1', 'sub h1 tb - 0 u2']
+        if r.random() < 0.3: L += ['batch_size h1 %d' % r.randrange(0, 4)]
+        L += ['pub h0 ta p%d %d' % (i + 1, af()) for i in range(r.randrange(1, 4))] + ['dispatch'] * 4
+        L += [r.choice(['stop h1', 'stop h1', 'pause h1']), r.choice(['start h1', 'start h1', 'resume h1']), 'sub h1 tb - 0 u3',
+              'pub h0 tb p8 0', 'dispatch', 'dispatch', 'ret 1']
+    elif kind == 'stash_pause_stop':
+        # stashed events of a module that is paused, then stopped and started again
+        k = r.randrange(1, 4)
+        L += ['reg h0 A - -', 'start h0'] + ['tell h0 h0 p%d %d' % (i + 1, af()) for i in range(k)] + ['dispatch']
+        L += ['dispatch', 'stash h0 0', 'ret 1'] * k
+        L += [r.choice(['pause h0', 'pause h0', 'srclen h0']), r.choice(['stop h0', 'stop h0', 'resume h0']), 'srclen h0', 'start h0',
+              'unstash h0 %d' % r.choice([1, 9]), 'ret 1', 'tell h0 h0 p7 0', 'dispatch', 'dispatch', 'unstash h0 9', 'ret 1']
     elif kind == 'tb_reconf':
         # a bucket is configured, drained, reconfigured (rates that share low bits), stopped, restarted
         L += ['reg h0 A - -', 'tb h0 %d %d' % (r.choice([1, 65536, 131072, 10 ** 9]), r.randrange(1, 4)), 'start h0']
